@@ -81,6 +81,19 @@ def pinned_hooks(chk):
 
 
 def run_conform(chk, pairs, maxlen, timeout, label):
+    # open point OP3 (DESIGN.md section 5): programs with an optional whose body does not start with a plain, non-empty match are not
+    # judged against the source semantics (whether a byte that only a fall-back takes enters the optional is not settled by the reference)
+    from gen import enumprog as _ep
+    kept = []
+    for p, ast in pairs:
+        try:
+            weak = _ep.opt_weak_start(ast['body'])
+        except Exception:
+            weak = False
+        if not weak:
+            kept.append((p, ast))
+    chk.coverage_skipped_op3 = getattr(chk, 'coverage_skipped_op3', 0) + len(pairs) - len(kept)
+    pairs = kept
     reports, st, cases = conform.explore(pairs, maxlen=maxlen, timeout=timeout)
     for e in st['errors']:
         chk.machinery_error('TLC(Conform %s): %s' % (label, str(e)[:1500]))
